@@ -157,7 +157,7 @@ static void check_get(struct json_object *o, V *v, int use_f, int check_unchange
 	struct rpath rp;
 	int want = ref_eval(v, cur_ptr, strlen(cur_ptr), &node, &rp);
 	struct json_object *res = (struct json_object *)(uintptr_t)0x1234;
-	errno = 0;
+	errno = mc_errno_pre;
 	MC_COUNT("calls", 1);
 	int rc = use_f ? json_pointer_getf(o, &res, "%s", cur_ptr) : json_pointer_get(o, cur_ptr, &res);
 	int e = errno;
@@ -298,7 +298,7 @@ static void check_set(V *v, int valkind, int use_f)
 	vf_dump(o, &d_before, 0);
 	V *expect = NULL;
 	int want = ref_set(v, cur_ptr, mval, &expect);
-	errno = 0;
+	errno = mc_errno_pre;
 	MC_COUNT("calls", 1);
 	int rc = use_f ? json_pointer_setf(&o, val, "%s", cur_ptr) : json_pointer_set(&o, cur_ptr, val);
 	int e = errno;
